@@ -1,6 +1,6 @@
 #!/bin/bash
 # evaluates independently produced behaviour-preserving refactorings (/tmp/refac/<id>/r<k>) — every check must stay silent (exit 0)
-for id in "$@"; do for k in r1 r2 r3 r4 r5; do d=/tmp/refac/$id/$k; [ -f $d/patch.diff ] || continue
+for id in "$@"; do for k in r1 r2 r3 r4 r5; do d=${REFAC_DIR:-/tmp/refac}/$id/$k; [ -f $d/patch.diff ] || continue
   res=$(MUTLINES=4 /verif/tools/mutrun.sh $d/patch.diff $id 2>&1); rc=$(echo "$res" | grep -o 'exit=[0-9]*' | head -1 | cut -d= -f2)
   [ -z "$rc" ] && rc="NA:$(echo $res | cut -c1-80)"
   extra=""; [ "$rc" != "0" ] && extra=$(echo "$res" | grep -e "rule=" -e UNDECIDED | head -2 | cut -c1-330)
